@@ -17,16 +17,39 @@ STATUS.  Proved, for all inputs, the two media paths end to end and the transpor
 * the per-session links: exact hand-over to the serializer, exact raising, chunk-size changes honoured,
   application name minus one trailing '/'.
 
-NOT a theorem: that the connect → createStream → publish/play workflow, run between the two models
-under an arbitrary schedule, reaches the states the media theorems start from (it needs the symbolic
-AMF0 round trip of each command object and a schedule argument).  Each session's half of that workflow
-is C09 / C10; the composition is decided on the implementation by the `interop` family: real
-ClientSession ↔ real ServerSession under seeded random fragmentation, interleaving and configurations.
+* `C02_publish_workflow` / `C02_play_workflow`: a NEW client session and a NEW server session, ANY
+  configurations the library accepts, ANY application name and stream key (valid UTF-8, key ≤ 65535
+  bytes).  The two applications forward packets, accept what they are shown, and call
+  `request_connection` then `request_publishing` / `request_playback`.  Whatever those application
+  calls return when they return Ok, EVERY `handle_input` in between succeeds and returns exactly the
+  listed results (one connection request for the name minus one trailing '/', one publish / play
+  request for that application and the requested key, "connection accepted", "publish accepted" /
+  "playback accepted" — nothing else, nothing twice), and the pair ends in the state the media
+  theorems start from (`PublishReady` / `PlayReady`), on stream 1.  Transaction ids and stream ids
+  travel as AMF0 numbers: `F64.toU32_ofU32` (every u32 survives u32 → f64 → u32).
+* `C02_publish_items`, `C02_play_items`: the media theorems restated on such a pair; the pair is ready
+  again afterwards, so they iterate.  `C02_stop_publishing`, `C02_stop_playback`: stopping raises exactly
+  the matching finished event at the server.
+* `C02_publish_end_to_end`: the three chained from two new sessions.
+
+Schedule.  The workflow is request/response, so the only freedom a schedule has is how each direction's
+bytes are cut into calls and when acknowledgements are sent.  The theorems deliver each hop's bytes in
+one `drain`; `C15_server_session` / `C15_client_session` extend each hop to ANY partition; `drain` is
+`handle_input` minus the acknowledgement step (`C15_*_input_is_drain`), and acknowledgements are a
+function of the call sizes (C17) that raise only acknowledgement events at the peer.  NOT a theorem:
+the workflow with acknowledgement packets interleaved (the peer's handling of an Ack is a no-op on
+every field the workflow reads, but the composition is not stated), and metadata items end to end (the
+f32 ↔ f64 casts of the frame rate are validated by correspondence only).  The model fixes one
+enumeration order for each AMF0 object the sessions build; the real `HashMap` order is arbitrary and
+every reader looks properties up by name (C04 holds for every order).  The composition is also decided
+on the implementation by the `interop` family: real ClientSession ↔ real ServerSession under seeded
+random fragmentation, interleaving and configurations.
 -/
 import Rml.Props.C09
 import Rml.Props.C10
 import Rml.Lemmas.Interop
 import Rml.Props.C15
+import Rml.Lemmas.Workflow
 namespace Rml.C02
 open Rml Rml.Chunk Rml.Amf0 Rml.Msgs Rml.Sess
 
@@ -143,5 +166,157 @@ example :
     (Interop.publishAll c [{ video := true, data := [1, 2], ts := 5, drop := false },
                            { video := false, data := [3], ts := 9, drop := true }]).isSome = true := by
   decide +kernel
+
+/-! ### the workflow between two new sessions -/
+open Rml.Workflow Rml.WfSteps
+
+/-- **connect then publish completes on both sides** (statement and proof: Lemmas/Workflow.lean) -/
+theorem C02_publish_workflow (ccfg : Cli.Config) (scfg : Srv.Config) (now : Nat) (app key : Bytes) (t : Cli.PublishType)
+    (hcw : CfgWF ccfg) (hco : CfgOK ccfg) (hsw : SCfgWF scfg)
+    (happ : Utf8.valid app = true) (hkey : Utf8.valid key = true) (hkl : key.length ≤ 65535)
+    {v0 : Srv.State} {rs0 : List Srv.Res} (hnew : Srv.new scfg now = .ok (v0, rs0)) :
+    ∃ c1 b4, CliPart.drain ({ cfg := ccfg } : Cli.State) now (bytesS rs0) = (c1, .ok (bannerEvents scfg now b4)) ∧
+    ∀ c2 r1, Cli.requestConnection c1 now app = (c2, .ok r1) →
+    ∃ p1 v1, r1 = .out p1 ∧
+      SrvPart.drain v0 now p1.bytes = (v1, .ok [.ev (.connectionRequested 0 (trimApp app))]) ∧
+    ∀ v2 rs2, Srv.acceptRequest v1 now 0 = (v2, .ok rs2) →
+    ∃ p2 c3 pa pb v3, rs2 = [.out p2] ∧
+      CliPart.drain c2 now p2.bytes = (c3, .ok [.out pa, .ev .connectionAccepted, .out pb]) ∧
+      SrvPart.drain v2 now (pa.bytes ++ pb.bytes) = (v3, .ok []) ∧
+    ∀ c4 r3, Cli.requestStream c3 now (.publish key t) = (c4, .ok r3) →
+    ∃ p3 v4 p4 c5 p5 v5, r3 = .out p3 ∧
+      SrvPart.drain v3 now p3.bytes = (v4, .ok [.out p4]) ∧
+      CliPart.drain c4 now p4.bytes = (c5, .ok [.out p5]) ∧
+      SrvPart.drain v4 now p5.bytes = (v5, .ok [.ev (.publishRequested 1 (trimApp app) key (modeOf t))]) ∧
+    ∀ v6 rs6, Srv.acceptRequest v5 now 1 = (v6, .ok rs6) →
+    ∃ p6 p7 c6, rs6 = [.out p6, .out p7] ∧
+      CliPart.drain c5 now (p6.bytes ++ p7.bytes) = (c6, .ok [.ev .publishAccepted]) ∧
+      PublishReady c6 v6 1 (trimApp app) key (modeOf t) :=
+  publish_workflow ccfg scfg now app key t hcw hco hsw happ hkey hkl hnew
+
+/-- **connect then play completes on both sides** -/
+theorem C02_play_workflow (ccfg : Cli.Config) (scfg : Srv.Config) (now : Nat) (app key : Bytes)
+    (hcw : CfgWF ccfg) (hco : CfgOK ccfg) (hbuf : ccfg.bufferLengthMs < 4294967296) (hsw : SCfgWF scfg)
+    (happ : Utf8.valid app = true) (hkey : Utf8.valid key = true) (hkl : key.length ≤ 65535)
+    {v0 : Srv.State} {rs0 : List Srv.Res} (hnew : Srv.new scfg now = .ok (v0, rs0)) :
+    ∃ c1 b4, CliPart.drain ({ cfg := ccfg } : Cli.State) now (bytesS rs0) = (c1, .ok (bannerEvents scfg now b4)) ∧
+    ∀ c2 r1, Cli.requestConnection c1 now app = (c2, .ok r1) →
+    ∃ p1 v1, r1 = .out p1 ∧
+      SrvPart.drain v0 now p1.bytes = (v1, .ok [.ev (.connectionRequested 0 (trimApp app))]) ∧
+    ∀ v2 rs2, Srv.acceptRequest v1 now 0 = (v2, .ok rs2) →
+    ∃ p2 c3 pa pb v3, rs2 = [.out p2] ∧
+      CliPart.drain c2 now p2.bytes = (c3, .ok [.out pa, .ev .connectionAccepted, .out pb]) ∧
+      SrvPart.drain v2 now (pa.bytes ++ pb.bytes) = (v3, .ok []) ∧
+    ∀ c4 r3, Cli.requestStream c3 now (.play key) = (c4, .ok r3) →
+    ∃ p3 v4 p4 c5 p5 p6 v5, r3 = .out p3 ∧
+      SrvPart.drain v3 now p3.bytes = (v4, .ok [.out p4]) ∧
+      CliPart.drain c4 now p4.bytes = (c5, .ok [.out p5, .out p6]) ∧
+      SrvPart.drain v4 now (p5.bytes ++ p6.bytes) =
+        (v5, .ok [.ev (.playRequested 1 (trimApp app) key .liveOrRecorded none false 1)]) ∧
+    ∀ v6 rs6, Srv.acceptRequest v5 now 1 = (v6, .ok rs6) →
+    ∃ c6, CliPart.drain c5 now (bytesS rs6) =
+        (c6, .ok [.ev (.unhandleableOnStatus (str "NetStream.Play.Reset")), .ev .playbackAccepted]) ∧
+      PlayReady c6 v6 1 (trimApp app) key :=
+  play_workflow ccfg scfg now app key hcw hco hbuf hsw happ hkey hkl hnew
+
+/-- media on a publishing pair; ready again afterwards -/
+theorem C02_publish_items {c c' : Cli.State} {v : Srv.State} {sid : Nat} {app key : Bytes} {mode : Srv.PublishMode}
+    (hr : PublishReady c v sid app key mode) (items : List Interop.Item) (ps : List Ser.Packet) (now : Nat) (mask : List Bool)
+    (hts : ∀ it ∈ items, it.ts < 4294967296) (hpub : Interop.publishAll c items = some (c', ps)) :
+    let kept := SerHist.keepSel mask (ps.zip (items.map (Interop.Item.msg sid)))
+    ∃ v', SrvPart.drain v now (SerHist.wire kept) = (v', .ok ((SerHist.msgs kept).flatMap (Interop.evOf app key))) ∧
+      PublishReady c' v' sid app key mode :=
+  publish_items hr items ps now mask hts hpub
+
+theorem C02_play_items {c : Cli.State} {v v' : Srv.State} {sid : Nat} {app key : Bytes}
+    (hr : PlayReady c v sid app key) (items : List Interop.Item) (ps : List Ser.Packet) (now : Nat) (mask : List Bool)
+    (hts : ∀ it ∈ items, it.ts < 4294967296) (hsend : Interop.sendAll v sid items = some (v', ps)) :
+    let kept := SerHist.keepSel mask (ps.zip (items.map (Interop.Item.msg sid)))
+    ∃ c', CliPart.drain c now (SerHist.wire kept) = (c', .ok ((SerHist.msgs kept).flatMap Interop.evOfC)) ∧
+      PlayReady c' v' sid app key :=
+  play_items hr items ps now mask hts hsend
+
+/-- stopping raises exactly the matching finished event at the server -/
+theorem C02_stop_publishing {c c1 : Cli.State} {v : Srv.State} {sid : Nat} {app key : Bytes} {mode : Srv.PublishMode}
+    {now : Nat} {rs : List Cli.Res}
+    (hr : PublishReady c v sid app key mode) (h : Cli.stop c now false = (c1, .ok rs)) :
+    ∃ p v1, rs = [.out p] ∧ SrvPart.drain v now p.bytes = (v1, .ok [.ev (.publishFinished app key)]) ∧
+      InStep c1 v1 ∧ c1.st = .connected ∧ c1.activeStream = none ∧ mapGet sid v1.streams = none :=
+  stop_publishing hr h
+
+theorem C02_stop_playback {c c1 : Cli.State} {v : Srv.State} {sid : Nat} {app key : Bytes} {now : Nat} {rs : List Cli.Res}
+    (hr : PlayReady c v sid app key) (h : Cli.stop c now true = (c1, .ok rs)) :
+    ∃ p v1, rs = [.out p] ∧ SrvPart.drain v now p.bytes = (v1, .ok [.ev (.playFinished app key)]) ∧
+      InStep c1 v1 ∧ c1.st = .connected ∧ c1.activeStream = none ∧ mapGet sid v1.streams = none :=
+  stop_playback hr h
+
+/-! non-vacuity: the whole publish scenario executed on the model — every application call returns Ok,
+    every result is the listed one, two items arrive, the stop raises "publish finished" -/
+def demoC : Cli.Config := { flashVersion := str "v", bufferLengthMs := 100, windowAckSize := 5000, chunkSize := 64, tcUrl := some (str "u") }
+def demoS : Srv.Config := { fmsVersion := str "f", chunkSize := 50, peerBandwidth := 7, windowAckSize := 9000, sendOnBwDone := true }
+
+def bytesOfC (rs : List Cli.Res) : Bytes := ((CliEmit.outs rs).map (·.bytes)).flatten
+
+def demoRun : Option (List Srv.Res) :=
+  match Srv.new demoS 5 with
+  | .error _ => none
+  | .ok (v0, rs0) =>
+  match CliPart.drain ({ cfg := demoC } : Cli.State) 5 (bytesS rs0) with
+  | (_, .error _) => none
+  | (c1, .ok _) =>
+  match Cli.requestConnection c1 6 (str "live/") with
+  | (_, .error _) => none
+  | (c2, .ok r1) =>
+  match SrvPart.drain v0 7 (bytesOfC [r1]) with
+  | (_, .error _) => none
+  | (v1, .ok _) =>
+  match Srv.acceptRequest v1 8 0 with
+  | (_, .error _) => none
+  | (v2, .ok rs2) =>
+  match CliPart.drain c2 9 (bytesS rs2) with
+  | (_, .error _) => none
+  | (c3, .ok rs3) =>
+  match SrvPart.drain v2 10 (bytesOfC rs3) with
+  | (_, .error _) => none
+  | (v3, .ok _) =>
+  match Cli.requestStream c3 11 (.publish (str "key") .live) with
+  | (_, .error _) => none
+  | (c4, .ok r3) =>
+  match SrvPart.drain v3 12 (bytesOfC [r3]) with
+  | (_, .error _) => none
+  | (v4, .ok rs4) =>
+  match CliPart.drain c4 13 (bytesS rs4) with
+  | (_, .error _) => none
+  | (c5, .ok rs5) =>
+  match SrvPart.drain v4 14 (bytesOfC rs5) with
+  | (_, .error _) => none
+  | (v5, .ok _) =>
+  match Srv.acceptRequest v5 15 1 with
+  | (_, .error _) => none
+  | (v6, .ok rs6) =>
+  match CliPart.drain c5 16 (bytesS rs6) with
+  | (_, .error _) => none
+  | (c6, .ok _) =>
+  match Interop.publishAll c6 [{ video := true, data := List.replicate 150 7, ts := 40, drop := false },
+                               { video := false, data := [3], ts := 49, drop := true }] with
+  | none => none
+  | some (c7, ps) =>
+  match SrvPart.drain v6 17 ((ps.map (·.bytes)).flatten) with
+  | (_, .error _) => none
+  | (v7, .ok evs) =>
+  match Cli.stop c7 18 false with
+  | (_, .error _) => none
+  | (_, .ok rs8) =>
+  match SrvPart.drain v7 19 (bytesOfC rs8) with
+  | (_, .error _) => none
+  | (_, .ok fin) => some (evs ++ fin)
+
+def isDemoResult : Option (List Srv.Res) → Bool
+  | some [.ev (.video a k d 40), .ev (.audio a2 k2 [3] 49), .ev (.publishFinished a3 k3)] =>
+    a == str "live" && k == str "key" && d == List.replicate 150 7 && a2 == str "live" && k2 == str "key" &&
+      a3 == str "live" && k3 == str "key"
+  | _ => false
+
+example : isDemoResult demoRun = true := by decide +kernel
 
 end Rml.C02
